@@ -84,7 +84,7 @@ def replay(case):
         with contextlib.redirect_stdout(io.StringIO()):
             E.count()
         rep = E.report()
-    except AssertionError:
+    except Exception:          # a count that fails (e.g. meek with integer arithmetic asserts) has no report to read
         rep = None
     if rep is not None:
         def listed(prefix):
